@@ -27,7 +27,7 @@ r4\t4\t*\t0\t0\t*\t*\t0\t0\t*\t*\n";
 /// the subset the CRAM writer round-trips (no record with bases but without qualities, F24)
 pub const SAM_TEXT_CRAM_RECORDS: usize = 4;
 
-pub const VCF_TEXT: &str = "##fileformat=VCFv4.3\n\
+pub const VCF_TEXT: &str = "##fileformat=VCFv4.4\n\
 ##contig=<ID=sq0,length=1000>\n\
 ##contig=<ID=sq1,length=500>\n\
 ##INFO=<ID=DP,Number=1,Type=Integer,Description=\"d\">\n\
